@@ -6,9 +6,13 @@ One Lean branch per Go `case`. Go faults are explicit (`Except Fault`): the inte
 `left == right` panics when both operands hold the same uncomparable dynamic type (`[]any` or
 `map[string]any`), `sstack[0]` panics on an empty program.
 
-The model is parametrised by `Dev`, the list of DEVIATIONS of the pinned tree from the specification
-(known findings C12-uncomparable-panic, C12-neq-float, C12-int-via-float64). `Dev.pinned` is the
-unchanged code; switching a flag off gives the code with the corresponding proposed fix applied.
+The model is parametrised by `Dev`, the list of operator-level DEVIATIONS of the pinned tree from the
+specification (known findings C12-uncomparable-panic, C12-neq-float, C12-int-via-float64). `Dev.pinned`
+is the unchanged code; switching a flag off gives the code with the corresponding proposed fix applied.
+Two further known findings are not operator-level: C12-bare-path is carried by `compile` (its `wrap`
+argument says whether the route rewrites a bare path into an existence test), C12-fn-arg-rotation is a
+defect of the script PARSER, which is not modelled: the harness feeds the model the tree the parser
+builds (fnarg family).
 
 Left out (not modelled, not exercised): user-registered functions (code 'U'), the `get` pseudo
 operator (never placed in a program), data that is not made of nil/bool/int64/float64/string/[]any/
